@@ -1340,6 +1340,13 @@ def _run_case(ctx, case, want, gtrace):
                         if not (abs(rb[nm] - dens[nm]) <= 10 * tol):
                             ofail("C06", f"after op {k} {op['o']}: handle {i}: {nm} {dens[nm]!r} vs rebuilt {rb[nm]!r}",
                                   "TreeJointDistribution." + nm, "density", None)
+            if i in mdumps and gp and not grammar:
+                # outside the grammar the real rustworkx graph can stop being a forest (e.g. `create_root_node` on an
+                # extracted subtree whose names are not dense, then `get_subtree`): the payload-forest store model cannot
+                # represent that state, and no property quantifies over such histories - stop comparing this history here
+                summ["truncated"] = True
+                ctx.stat("weird_truncated_nonforest")
+                return summ
             if i in mdumps:
                 md = mdumps[i]
                 diffs, info = compare_dump(ds, md, snap, tol, dens, sync.get(i, True), lsync.get(i, True))
